@@ -16,12 +16,12 @@ PLAN = {
     "C05": [("reopen", "dev")],
     "C08": [("core", "dev"), ("ctl", "dev"), ("reopen", "dev")],
     "C09": [("ro", "dev"), ("reopen", "dev")],
-    "C10": [("core", "dev"), ("shape", "dev"), ("fit", "dev")],
+    "C10": [("core", "dev"), ("shape", "dev"), ("fit", "dev"), ("minseg", "dev"), ("minseg", "release")],
     "C11": [("core", "dev"), ("ctl", "dev"), ("sizes", "dev")],
     "C16": [("layout", "dev"), ("core", "dev"), ("reopen", "dev"), ("ctl", "dev")],
     "C17": [("ctl", "dev"), ("ctl", "release")],
     "C18": [("ctl", "dev"), ("ro", "dev"), ("clone", "dev")],
-    "C20": [("core", "dev"), ("ctl", "dev"), ("ro", "dev"), ("fit", "dev")],
+    "C20": [("core", "dev"), ("ctl", "dev"), ("ro", "dev"), ("fit", "dev"), ("minseg", "dev"), ("minseg", "release")],
 }
 
 # C04 says "either returns a handle satisfying C01/C03 or a clean error": on the request-size suite a malformed or
